@@ -106,7 +106,42 @@ def transport_calls(f: FuncInfo, local_fs: bool):
         else:
             if d.startswith('self._client.'):
                 out.append(c)
+            elif isinstance(c.func, ast.Attribute) and c.func.attr in BODY_READS and isinstance(c.func.value, ast.Name) and _is_streaming_response(f, c.func.value.id):
+                # reading the body of a response that was opened with stream=True talks to the network
+                out.append(c)
     return out
+
+
+BODY_READS = {'aread', 'read', 'aiter_bytes', 'aiter_raw', 'aiter_text', 'aiter_lines', 'iter_bytes', 'iter_raw'}
+
+
+def _is_streaming_response(f: FuncInfo, name: str) -> bool:
+    """the local `name` is bound (assignment / `with .. as name`) to the result of a request made with stream=True -
+    directly or through a method of the same class whose request is made that way"""
+    def streaming_call(e):
+        for c in ast.walk(e):
+            if not isinstance(c, ast.Call):
+                continue
+            kw = kwarg(c, 'stream')
+            if isinstance(kw, ast.Constant) and kw.value is True:
+                return True
+            if isinstance(c.func, ast.Attribute) and c.func.attr == 'stream':
+                return True
+            d = dotted(c.func) or ''
+            if d.startswith('self.') and f.cls is not None:
+                m = f.cls.methods.get(d[5:])
+                if m is not None and any(isinstance(k, ast.keyword) and k.arg == 'stream' and isinstance(k.value, ast.Constant) and k.value.value is True for k in ast.walk(m.node)):
+                    return True
+        return False
+
+    for n in ast.walk(f.node):
+        if isinstance(n, ast.Assign) and any(isinstance(t, ast.Name) and t.id == name for t in n.targets) and streaming_call(n.value):
+            return True
+        if isinstance(n, (ast.With, ast.AsyncWith)):
+            for it in n.items:
+                if isinstance(it.optional_vars, ast.Name) and it.optional_vars.id == name and streaming_call(it.context_expr):
+                    return True
+    return False
 
 
 def class_callgraph(corpus, ci: ClassInfo):
